@@ -155,6 +155,10 @@ func (r *schemaLoader) resolveRef(ref *Ref, target interface{}, basePath string)
 			return err
 		}
 	}
+	if rv := reflect.ValueOf(res); rv.Kind() == reflect.Ptr && rv.IsNil() {
+		// the pointer lands on an absent optional member of a typed document
+		return fmt.Errorf("reference %q designates no value: %w", ref.String(), ErrSpec)
+	}
 	return swag.DynamicJSONToStruct(res, target)
 }
 
